@@ -6,5 +6,6 @@ CONSTANTS
   StrLen = 0
   FullLen = 1
   RepLen = 3
+  Big = {}
 INVARIANTS Total DecodedIsEncodable EmitBytes
 CHECK_DEADLOCK FALSE
